@@ -82,6 +82,33 @@ async fn client(sh: Arc<Shared>, c: usize, spec: ClientSpec, slots: Slots) {
                 Some(other) => put_back(&slots, c, slot, other),
                 None => {}
             },
+            Op::SendDeferred { slot, kind, body, defer } => match take_slot(&slots, c, slot) {
+                Some(Hdl::S(a, h)) => {
+                    let uid = body.uid;
+                    {
+                        let fut = h.make_u(kind, body);
+                        sh.log.push(K::Lazy { uid, what: "created" });
+                        if defer == 0 {
+                            drop(fut);
+                            sh.log.push(K::Lazy { uid, what: "dropped-unpolled" });
+                            tokio::task::yield_now().await;
+                        } else {
+                            if defer == 1 {
+                                tokio::task::yield_now().await;
+                            } else {
+                                tokio::time::sleep(Duration::from_millis(defer)).await;
+                            }
+                            let (ok, to) = kind_of(kind);
+                            let g = CallGuard::start(&sh, a, ok, 'U', uid, to, ctx);
+                            let res = fut.await;
+                            g.end(res);
+                        }
+                    }
+                    put_back(&slots, c, slot, Hdl::S(a, h));
+                }
+                Some(other) => put_back(&slots, c, slot, other),
+                None => {}
+            },
             Op::Stop { slot } => match take_slot(&slots, c, slot) {
                 Some(Hdl::S(a, h)) => {
                     stop_via(&sh, ctx, a, &h).await;
